@@ -88,7 +88,7 @@ def run_config(chk, config):
     info = {"back": 0, "probs": []}
 
     def on_loop(frame, head, H, res, havoc, lid):
-        if frame.key != a.avp_greedy["key"] or eng.mute:
+        if eng.mute or not in_ctx(frame, a.avp_greedy) or not record_loop(res, H.ntrace):
             return
         n0 = H.ntrace
         rdh = H.cells.get(("obj", "reader"))
@@ -97,6 +97,11 @@ def run_config(chk, config):
             evs = b.events()[n0:]
             mine = [e for e in evs if e[0] in ("read", "skip", "bytes", "sub") and e[1] == "reader.*"]
             rdb = b.cells.get(("obj", "reader"))
+            pushes_ = [e for e in evs if e[0] == "push"]
+            if mine and all(e[0] == "read" for e in mine) and len(pushes_) == 1:
+                vi_, p_ = result_parts(pushes_[0][2])
+                if vi_ == 1 and tables.variant_name(eng, p_) == "InvalidAVPLength":
+                    continue          # a record with an unusable length: nothing to carve (whether the loop then stops is C15's clause)
             hreads = [e for e in mine[:-1]]
             hview = AvpHeaderView(eng, b, hreads) if all(e[0] == "read" for e in hreads) else None
             if hview is None or not hview.ok or sum(e[2] for e in hreads) != 6 or mine[-1][0] not in ("skip", "bytes", "sub"):
